@@ -49,6 +49,11 @@ def make_hook(state):
             if isinstance(u, Struct) and u.path == "rand::Uniform":
                 if state["mode"] in ("low", "high"):
                     return u.fields[state["mode"]]
+                if state["mode"] == "draw":
+                    # one fresh variate per executed sample call, remembered with the bounds of the distribution it came from
+                    k = len(state.setdefault("draws", []))
+                    state["draws"].append(("d%d" % k, u.fields["low"], u.fields["high"]))
+                    return ctx.sym("d%d" % k)
                 raise Opaque("Uniform::sample outside an end-point evaluation")
             return NotImplemented
         if spath == "rand::Rng::gen" or spath.endswith("::Rng::gen"):
@@ -676,6 +681,91 @@ def _scaled_equal(S, v, e):
     return (not mm), k
 
 
+def check_volume_uniform(F, rep):
+    """VOL-UNIFORM: the uniform samplers of the shaped spaces draw in CDF space.  With every inner `Uniform::sample` replaced by a fresh
+    variate d_k (remembered with the bounds of its distribution): hue, height and radius come from three *distinct* variates, each inner
+    distribution is sampled exactly once, radius = k·sqrt(d) with d ∈ [(low.r/k)², (high.r/k)²], height = k·cbrt(d) with cubed bounds (cone),
+    the inverse bicone CDF of d with d between the CDFs of the two ends (bicone), d itself (cylinder).  Anything else (two draws combined,
+    a draw in coordinate space) is not uniform in volume between the two ends, whatever its range."""
+    n = 0
+    for im, xt in sorted(sampler_impls(F), key=lambda t: t[0]["self_s"]):
+        key = im["self_s"].split("<")[0].split("::")[-1]
+        tkey = sym._adt_of_type(xt).split("::")[-1]
+        hwb = tkey in ("Hwb", "Okhwb")
+        shape = SHAPES.get(tkey) or (("cone", None, None) if hwb else None)
+        if shape is None:
+            continue
+        b_new, b_smp = F.impl_method(im, "new"), F.impl_method(im, "sample")
+        n += 1
+        try:
+            S = Session(F)
+            st = {"mode": "build", "kinds": set(), "gens": [], "F": F}
+            S.ctx.call_hook = make_hook(st)
+            low = alg.symbolic_arg(S.ctx, xt, "low")
+            high = alg.symbolic_arg(S.ctx, xt, "high")
+            S.ctx.positive = _positive_names(("low.", "high."), low) | _positive_names(("low.", "high."), high) | {"d0", "d1", "d2", "d3", "d4"}
+            U1, _ = S.ev.eval_body(b_new, [low, high])
+            st["mode"], st["draws"] = "draw", []
+            v, _ = S.ev.eval_body(b_smp, [U1, S.ctx.sym("rng")])
+            draws = {d[0]: (d[1], d[2]) for d in st["draws"]}
+            kind, height, radius = shape
+            R = S.R
+            problems = []
+            if len(draws) != 3:
+                problems.append("%d variates drawn for hue, height and radius (each inner distribution must be sampled exactly once)" % len(draws))
+            dn = lambda x: {a for a in atoms_of(x) if re.match(r"^d\d+$", a)}
+            if hwb:
+                hv = R.sub(1, v.fields["blackness"])                      # V = 1 - blackness
+                rv = None
+                wa, ha = dn(v.fields["whiteness"]), dn(hv)
+                ra = wa - ha
+            else:
+                hv, rv = v.fields[height], v.fields[radius]
+                ha, ra = dn(hv), dn(rv)
+            hue_a = dn(v.fields["hue"])
+            if not (len(ha) == 1 and len(ra) == 1 and len(hue_a) == 1 and len(ha | ra | hue_a) == 3):
+                problems.append("hue, height and radius are not functions of three distinct single variates: hue %s, height %s, radius %s" % (sorted(hue_a), sorted(ha), sorted(ra)))
+            else:
+                dh, dr = S.ctx.sym(next(iter(ha))), S.ctx.sym(next(iter(ra)))
+                (hlo, hhi), (rlo, rhi) = draws[next(iter(ha))], draws[next(iter(ra))]
+                if hwb:
+                    okr, kr = _scaled_equal(S, v.fields["whiteness"], R.mul(R.cbrt(dh), R.sub(1, R.sqrt(dr))))
+                    okh, kh = _scaled_equal(S, hv, R.cbrt(dh))
+                    if not (okr and okh and kr == 1 and kh == 1):
+                        problems.append("value = %s, whiteness = %s; expected cbrt(d), cbrt(d)·(1 - sqrt(d'))" % (alg._short(hv, 60), alg._short(v.fields["whiteness"], 80)))
+                else:
+                    okr, kr = _scaled_equal(S, rv, R.sqrt(dr))
+                    if not okr:
+                        problems.append("%s = %s, expected k·sqrt(d)" % (radius, alg._short(rv, 80)))
+                    else:
+                        for nm, got, end in (("low", rlo, low), ("high", rhi, high)):
+                            mm = alg.compare(got, (end.fields[radius] / S.ctx.num(kr)) ** 2, S.ctx)
+                            if mm:
+                                problems.append("%s bound of the radius variate is %s, expected (%s.%s/%s)²" % (nm, alg._short(got, 60), nm, radius, kr))
+                    if kind == "cone":
+                        eh = R.cbrt(dh)
+                        cdf = lambda h: h ** 3
+                    elif kind == "bicone":
+                        eh = R.ite(R.le(dh, Fr(1, 2)), R.mul(Fr(1, 2), R.cbrt(R.mul(2, dh))), R.sub(1, R.mul(Fr(1, 2), R.cbrt(R.mul(2, R.sub(1, dh))))))
+                        cdf = lambda h: R.ite(R.le(h, Fr(1, 2)), R.mul(4, h ** 3), R.sub(1, R.mul(4, R.sub(1, h) ** 3)))
+                    else:
+                        eh = dh
+                        cdf = lambda h: h
+                    okh, kh = _scaled_equal(S, hv, eh)
+                    if not okh:
+                        problems.append("%s = %s, expected k·F⁻¹(d) of the %s" % (height, alg._short(hv, 80), kind))
+                    else:
+                        for nm, got, end in (("low", hlo, low), ("high", hhi, high)):
+                            mm = alg.compare(got, cdf(end.fields[height] / S.ctx.num(kh)), S.ctx)
+                            if mm:
+                                problems.append("%s bound of the height variate is %s, expected F(%s.%s/%s)" % (nm, alg._short(got, 60), nm, height, kh))
+            rep.ob("VOL-UNIFORM", "uniform:%s (%s)" % (key, kind), not problems,
+                   "; ".join(problems[:3]) if problems else "three distinct variates; radius = k·sqrt(d), height = k·F⁻¹(d), bounds are the CDFs of the two ends", F.loc(b_smp))
+        except (Opaque, poly.TooBig, KeyError, AttributeError) as ex:
+            rep.fail("VOL-UNIFORM", "uniform:%s" % key, "uninterpretable: %s" % ex, F.loc(b_smp))
+    rep.floor("shaped uniform samplers", n, 11)
+
+
 def run(F, rep, tier="quick", extra=None, only=None):
     rep.trusted += ["rustc name resolution / type check", "operator table of rules/sym.py",
                     "rand 0.8 API meaning: Uniform::new(a, b).sample ∈ [a, b) (new_inclusive: [a, b]), Standard f32/f64 ∈ [0, 1), SampleBorrow::borrow is the identity",
@@ -684,4 +774,5 @@ def run(F, rep, tier="quick", extra=None, only=None):
     check_monotone(F, rep)
     check_standard(F, rep)
     check_volume(F, rep)
+    check_volume_uniform(F, rep)
     return {"level": "other", "explanation": EXPLANATION}
